@@ -1,5 +1,6 @@
 (* C08 — command parsing is total and means what RFC 3501 says.
-   Only statements closed by `exact`; the proofs are in Proofs/LexP.v, ParseP.v, ParseT.v, ParseS.v.
+   Only statements closed by `exact`; the proofs are in Proofs/LexP.v, ParseP.v (completeness),
+   ParseT.v (totality), ParseW.v (what is accepted is well-formed), ParseS.v (soundness, witnesses).
 
    parse        : Model/ParseM.v — IMAPClientCommand(text).parse() of asimap/parse.py with the C08 fixes
                   (exact INBOX, decoded quoted strings, ValueError -> BadSyntax, search-key nesting limit,
@@ -43,18 +44,45 @@ Print Assumptions C08_rest_is_bounded.
 (* ---- soundness.
    Full statement (what the property says):
      forall s a, parse s = POk a ->
-       at_end (parse_rest s) = true /\ wf a = true /\ parse (render a canon) = POk a.
-   Its first conjunct is FALSE for the code as it is — known finding C08-trailing-text: the parser does not
-   look at what follows a complete command.  C08_refuted_trailing_text is the witness; the proved statement
-   carries the decidable guard  at_end (parse_rest s) = true  (exactly the negation of the finding's trigger)
-   and the size guard  |s| < 10^4300  (the server refuses more than MAX_INPUT_SIZE = 10 MiB anyway; beyond
-   10^4300 octets a literal's length could not be written in a literal prefix Python's int() accepts). *)
+       at_end (parse_rest s) = true /\ wf_canon a = true /\ parse (render a canon) = POk a.
+   Its first conjunct ("nothing is left unparsed") is FALSE for the code as it is — known finding
+   C08-trailing-text: the parser does not look at what follows a complete command (the end-of-input check
+   cannot be added without editing the repository's own tests, which feed it `A001 CHECK foo`).
+   C08_refuted_trailing_text is the witness on the model.  The other two conjuncts are proved for every
+   accepted input (C08_sound_partial); the first one is exactly the decidable guard
+   at_end (parse_rest s) = true, i.e. the negation of the finding's trigger, and with the end-of-input check
+   (spec helper parse_strict) it is proved too (C08_sound_strict).
+   Size guard |s| < 10^4300: the server refuses more than MAX_INPUT_SIZE = 10 MiB anyway; beyond 10^4300
+   octets a literal's length could not be written in a literal prefix that Python's int() accepts. *)
 Theorem C08_refuted_trailing_text :
   exists s a, parse s = POk a /\ at_end (parse_rest s) = false.
 Proof. exact trailing_text_witness. Qed.
 Print Assumptions C08_refuted_trailing_text.
 
-(*SOUND-BLOCK*)
+Theorem C08_sound_partial : forall s a,
+  parse s = POk a -> Z.of_nat (List.length s) < 10 ^ 4300 ->
+  wf_canon a = true /\ parse (render a canon) = POk a.
+Proof. exact parse_sound. Qed.
+Print Assumptions C08_sound_partial.
+
+(* with the end-of-input check the maintainers' own test-suite forbids (spec helper parse_strict),
+   the guard disappears: accepted means read to the end *)
+Theorem C08_sound_strict : forall s a,
+  parse_strict s = POk a -> Z.of_nat (List.length s) < 10 ^ 4300 ->
+  at_end (parse_rest s) = true /\ wf_canon a = true /\ parse_strict (render a canon) = POk a.
+Proof. exact parse_strict_sound. Qed.
+Print Assumptions C08_sound_strict.
+
+(* wf_canon is wf for the canonical spelling of the search keys (UNSEEN, OLD, NEW, UNKEYWORD x are one token and
+   need no nesting level; NOT SEEN, (RECENT UNSEEN) need one): every wf AST is wf_canon, and the canonical
+   sentence of a wf_canon AST is parsed to it *)
+Theorem C08_wf_is_wf_canon : forall a, wf a = true -> wf_canon a = true.
+Proof. exact wf_wf_canon. Qed.
+Print Assumptions C08_wf_is_wf_canon.
+Theorem C08_complete_canon : forall a, wf_canon a = true -> parse (render a canon) = POk a.
+Proof. exact parse_render_canon. Qed.
+Print Assumptions C08_complete_canon.
+
 (* known finding C08-datetime-2digit-year: an APPEND date-time year below 0100 is not taken literally
    (wf excludes such years; this is the witness on the model) *)
 Theorem C08_refuted_year_below_100 :
@@ -105,9 +133,11 @@ Example C08_example :
   let a := mkAst (bs "A1") (CSearch true (bs "utf-8")
              [KOr (KAnd [KKeyword (bs "\Seen"); KMsgSet [ERange (ANum 1) AStar]])
                   (KNot (KHeader (bs "from") (bs "sm""ith")));
+              KNot (KKeyword (bs "\Seen"));
               KDate DBefore (2020, 2, 29)]) in
   let ch := mkChoices (fun _ i => Nat.even i) (fun _ _ => 1%nat) (fun _ => true) in
   wf a = true /\ parse (render a ch) = POk a
-  /\ render a ch = bs "A1 UiD SeArCh ChArSeT ""utf-8"" Or (SeEn 1:*) NoT HeAdEr ""from"" ""sm\""ith"" BeFoRe ""29-FeB-2020"""
-                   ++ [13; 10].
+  /\ render a ch = bs "A1 UiD SeArCh ChArSeT ""utf-8"" Or (SeEn 1:*) NoT FrOm ""sm\""ith"" UnSeEn BeFoRe ""29-FeB-2020"""
+                   ++ [13; 10]
+  /\ render a canon = bs "A1 uid search charset utf-8 or (seen 1:*) not from ""sm\""ith"" unseen before 29-feb-2020".
 Proof. vm_compute. repeat split; reflexivity. Qed.
